@@ -126,6 +126,7 @@ fn meaning(tok: &str, it: &ItemView, chain: &[ItemView]) -> Option<bool> {
     let lv = |s: &str| crate::proto::LEVELS.iter().position(|l| *l == s).map(|p| p as u8);
     Some(match parts.as_slice() {
         ["lvl", l] => it.level == lv(l)?,
+        ["lvc", l] => it.level == lv(l)?,
         ["lvf", "off"] => false,
         ["lvf", l] => it.level <= lv(l)?,
         ["tgt", p] => {
@@ -144,6 +145,8 @@ fn meaning(tok: &str, it: &ItemView, chain: &[ItemView]) -> Option<bool> {
             match (rest, v) {
                 (["i64", x], Val::Int(i)) | (["i128", x], Val::Int(i)) => *i == x.parse::<i128>().ok()?,
                 (["u64", x], Val::UInt(u)) | (["u128", x], Val::UInt(u)) => *u == x.parse::<u128>().ok()?,
+                (["cint", x], Val::Int(i)) => *i == x.parse::<i128>().ok()?,
+                (["cuint", x], Val::UInt(u)) => *u == x.parse::<u128>().ok()?,
                 (["bool", x], Val::Bool(b)) => *b == (*x == "1"),
                 (["f64", x], Val::Float(b)) => f64::from_bits(*b) == f64::from_bits(u64::from_str_radix(x, 16).ok()?),
                 (["str", x], Val::Str(s)) => *s == crate::proto::unxs(x)?,
@@ -156,7 +159,7 @@ fn meaning(tok: &str, it: &ItemView, chain: &[ItemView]) -> Option<bool> {
                     Err(_) => false,
                 },
                 (["vstr", k, a], Val::Str(s)) => str_pred(k, a, s)?,
-                ([ty, ..], _) if ["i64", "i128", "u64", "u128", "bool", "f64", "str", "vi64", "vu64", "vstr"].contains(ty) => false,
+                ([ty, ..], _) if ["i64", "i128", "u64", "u128", "bool", "f64", "str", "vi64", "vu64", "vstr", "cint", "cuint"].contains(ty) => false,
                 _ => return None,
             }
         }
